@@ -54,3 +54,8 @@ def o : sample.Outer := ⟨⟨5⟩, ""⟩
 #eval for rounds in [[], [[(5 : UInt64)]], [[5, 5, 3], [], [3, 7, 5]]] do
   let r := sample.Memo X [1, 2, 3] rounds; IO.println s!"{r.1} {r.2.1} {e r.2.2}"
 #eval let r := sample.Plain X [4, 5] [3, 5]; IO.println s!"{r.1} {e r.2}"
+/- session 8: a function-typed parameter of a translated function (state type, step function, state), handed the
+   memoising closure several times; a function literal as the argument -/
+#eval let r := sample.Checks X [1, 2, 3]; IO.println s!"{r.1} {r.2}"
+#eval for want in [(32 : Int), 20] do
+  let r := sample.Lit X [1, 2] want; IO.println s!"{r.1} {r.2.isSome}"
